@@ -209,6 +209,22 @@ func Image(t *rapid.T, o Opts) bt.Image {
 			have = append(have, pk)
 			wr.Rows = append(wr.Rows, row)
 		}
+		if o.Indexes && rapid.IntRange(0, 2).Draw(t, "windexed") > 0 {
+			// secondary indexes of the WITHOUT ROWID table: any columns,
+			// primary key columns included (same or other collation)
+			ni := rapid.IntRange(1, 2).Draw(t, "wnidx")
+			for i := 0; i < ni; i++ {
+				ix := bt.Index{Name: []string{"wi0", "wi1"}[i], Tree: Tree(t, "wi")}
+				nc := rapid.IntRange(1, min(3, wr.NCols)).Draw(t, "widxcols")
+				perm := rapid.Permutation(seq(wr.NCols)).Draw(t, "widxperm")
+				for k := 0; k < nc; k++ {
+					ix.Cols = append(ix.Cols, perm[k])
+					ix.Desc = append(ix.Desc, rapid.IntRange(0, 2).Draw(t, "widesc") == 0)
+					ix.Coll = append(ix.Coll, rapid.SampledFrom([]string{"", "", refcmp.Nocase, refcmp.Rtrim, refcmp.Binary}).Draw(t, "wicoll"))
+				}
+				wr.Indexes = append(wr.Indexes, ix)
+			}
+		}
 		img.Tables = append(img.Tables, wr)
 	}
 	return img
